@@ -17,4 +17,5 @@ class Context:
         self.name_list: List[str] = []
         self.local_func_names: List[str] = []
         self.properties: List[str] = []
+        self.global_vars: List[str] = []
         self.tell_object: Optional[Node] = None
